@@ -551,11 +551,66 @@ func (g *sysGen) tx() string {
 	return fmt.Sprintf("t%d", g.ntx)
 }
 
+// directed histories: one signed request executed through one route and presented again, verbatim,
+// through the same or the other route; and a request carrying the signature of an earlier, accepted
+// request of the same signer.
+func genSYSDirected(c *Cfg, emit func([]string)) int {
+	count := 0
+	via := func(g *sysGen, h []string, route, w string) []string {
+		switch route {
+		case "batch":
+			t := g.tx()
+			return append(h, "submit "+t+" "+w, "batch robot "+t, "dump")
+		case "nb":
+			return append(h, "submit "+g.tx()+" "+w, "dump")
+		}
+		return append(h, "tasks "+w, "dump")
+	}
+	for _, fn := range []string{"transfer", "emit", "transferNb"} {
+		routes := []string{"batch", "task"}
+		if fn == "transferNb" {
+			routes = []string{"nb", "task"}
+		}
+		for _, r1 := range routes {
+			for _, r2 := range routes {
+				g := &sysGen{c: c, nonce: 1700000000000 + uint64(c.Rng.Intn(1000000)), nonces: map[string][]uint64{}}
+				h := []string{"reset -"}
+				h = via(g, h, "batch", g.request("emit", "{AI}", []string{"{A0}", "1000"}, strconv.FormatUint(g.freshNonce(), 10), "valid", "ok"))
+				sender, margs := "{A0}", []string{"{A1}", "10", "ref"}
+				if fn == "emit" {
+					sender, margs = "{AI}", []string{"{A2}", "10"}
+				}
+				nonce := strconv.FormatUint(g.freshNonce(), 10)
+				w := g.request(fn, sender, margs, nonce, "valid", "ok")
+				h = via(g, h, r1, w)
+				h = via(g, h, r2, w) // verbatim replay
+				// a later request of somebody else moves the window on; then the replay once more
+				h = via(g, h, "task", g.request("transfer", "{A1}", []string{"{A3}", "1", "ref"}, strconv.FormatUint(g.freshNonce(), 10), "valid", "ok"))
+				h = via(g, h, r1, w)
+				// the first request's signature under a request with another amount and nonce
+				margs2 := append([]string{}, margs...)
+				margs2[1] = "500"
+				w2 := g.request(fn, sender, margs2, strconv.FormatUint(g.freshNonce(), 10), "valid", "ok")
+				f1, f2 := strings.Split(w, "~"), strings.Split(w2, "~")
+				sym1 := strings.SplitN(f1[4], "=", 2)[0]
+				sym2 := strings.SplitN(f2[4], "=", 2)[0]
+				f2[3] = strings.Replace(f2[3], sym2, sym1, 1)
+				f2[4] = f1[4]
+				h = via(g, h, r2, strings.Join(f2, "~"))
+				emit(h)
+				count++
+			}
+		}
+	}
+	return count
+}
+
 func genSYS(c *Cfg, emit func([]string)) {
 	n := 120
 	if c.Thorough() {
 		n = 1500
 	}
+	nd := genSYSDirected(c, emit)
 	for i := 0; i < n; i++ {
 		g := &sysGen{c: c, nonce: 1700000000000 + uint64(c.Rng.Intn(1000000)), nonces: map[string][]uint64{}}
 		dis := "-"
@@ -634,5 +689,5 @@ func genSYS(c *Cfg, emit func([]string)) {
 		h = append(h, "dump")
 		emit(h)
 	}
-	c.Rule = fmt.Sprintf("%d histories of the whole request pipeline on one chaincode instance: funding by issuer emissions through batches, then 6..19 steps of {batched or immediate submission of a signed transfer/emit request, batchExecute over pending/duplicate/already-executed/unknown ids as robot or as another client, executeTasks with 1..3 requests}; requests: sender x recipient x amounts {0,1,5,7,40,100,150,1000,-5,non-numeric} x signature {valid, blank, junk, over another message, by a foreign key} x ACL {ok, error, empty, garbled, black/grey-listed}; nonces fresh / duplicate / at the TTL edge / too old / malformed / inside the window; a quarter of the requests are verbatim replays of earlier requests of the history (any route); every tenth history runs with one method disabled. Observed: reply class per item and, after every batch/task list, balances of 5 addresses, total emission, pending ids and the stored nonce windows read from the ledger. non-trivial = at least one submission or task list; distinct = sha256", n)
+	c.Rule = fmt.Sprintf("%d directed histories (each of transfer/emit/immediate transfer executed through one route, replayed verbatim through the same and the other route, replayed again after the window moved, and its signature presented with an altered request) and %d histories of the whole request pipeline on one chaincode instance: funding by issuer emissions through batches, then 6..19 steps of {batched or immediate submission of a signed transfer/emit request, batchExecute over pending/duplicate/already-executed/unknown ids as robot or as another client, executeTasks with 1..3 requests}; requests: sender x recipient x amounts {0,1,5,7,40,100,150,1000,-5,non-numeric} x signature {valid, blank, junk, over another message, by a foreign key} x ACL {ok, error, empty, garbled, black/grey-listed}; nonces fresh / duplicate / at the TTL edge / too old / malformed / inside the window; a quarter of the requests are verbatim replays of earlier requests of the history (any route); every tenth history runs with one method disabled. Observed: reply class per item and, after every batch/task list, balances of 5 addresses, total emission, pending ids and the stored nonce windows read from the ledger. non-trivial = at least one submission or task list; distinct = sha256", nd, n)
 }
